@@ -949,3 +949,10 @@ Definition has_decl (d : decl) (ds : list decl) : bool := existsb (decl_eqb d) d
    payload every attribute of the payload *)
 Definition request_metadata_names (attrs explicit creds : list str) (streaming_payload : bool) : list str :=
   if streaming_payload then attrs else explicit ++ filter (fun c => negb (mem c explicit)) creds.
+
+(* grpc/handler.go streamHandler as the generated server methods drive it: Decode (the
+   request decoder runs whenever the method has one - for client and bidirectional
+   streaming the message handed to it is nil and the payload comes from the metadata),
+   then Handle (the endpoint) unless decoding failed *)
+Definition stream_trace (has_decoder decode_ok : bool) : list stage :=
+  (if has_decoder then [SDecode] else []) ++ (if negb has_decoder || decode_ok then [SEndpoint] else []).
